@@ -230,6 +230,12 @@ def abstract_divisions(formulas):
 def check(formulas, timeout_s, portfolio, P, want_z3_model=False):
     """Satisfiability of the conjunction.  Returns (status, model, info); model = (values, uf tables[, z3 model])."""
     t0 = time.time()
+    if portfolio and not want_z3_model:
+        # cheap first attempt in-process: most obligations of a mostly-comparison harness are decided in milliseconds
+        st, model, info = check(formulas, min(5.0, timeout_s), False, P)
+        if st in ("sat", "unsat"):
+            return st, model, info
+        t0 = time.time()
     if portfolio and not want_z3_model and getattr(P.ctx, "abstract_div", True):
         af = abstract_divisions(formulas)
         if af is not None:
